@@ -616,6 +616,42 @@ theorem buffered_free_slots_bounded (initial bsize : Int) (ops : List BOp) :
   | nil => exact fun b q h => ⟨q, h⟩
   | cons op ops ih => exact fun b q h => ih _ _ (h.step (by omega) (by omega) op)
 
+/-! ### the facts extracted from `ring/buffered.go` are the ones the model is written for (T1) -/
+
+/-- thresholds (`initialSize`, `bufferSize` raised to 1; shrink when more than `2·bsize` free),
+offsets (`Move(end-1).Link`, `Move(end).Unlink`), guards (`end >= Len`, `end == 0`) and the only
+writes of the field `end` (initialised in `NewBuffered`, `++` in `AppendBack`, `--` in
+`RemoveFront`), re-extracted from the source on every run -/
+theorem buffered_facts_as_modelled : Kit.Generated.C14.buffered = expectedBuffered := by decide
+
+/-- the fact-parameterised model the driver runs is, for the expected facts, the model of the theorems -/
+theorem buffered_factmodel_is_model (b : Buf) (op : BOp) :
+    Buf.stepF expectedBuffered b op = Buf.step b op ∧
+    ∀ i bs, Buf.newF expectedBuffered i bs = Buf.new i bs := by
+  refine ⟨?_, fun i bs => rfl⟩
+  cases op with
+  | append v =>
+    simp only [Buf.stepF, Buf.step, Buf.appendBackF, Buf.appendBack, expectedBuffered]
+    simp [Int.sub_eq_add_neg]
+  | removeFront =>
+    simp only [Buf.stepF, Buf.step, Buf.removeFrontF, Buf.removeFront, expectedBuffered, exceeds]
+    simp
+  | front => rfl
+  | len => rfl
+  | range s => rfl
+
+/-- **Buffered refines a FIFO queue, for the model instantiated with the generated facts** (what
+`kitdrv` executes in the differential) -/
+theorem buffered_refines_queue_generated (initial bsize : Int) (ops : List BOp) :
+    (Buf.newF Kit.Generated.C14.buffered initial bsize).runF Kit.Generated.C14.buffered ops = Queue.run [] ops := by
+  rw [buffered_facts_as_modelled, (buffered_factmodel_is_model (Buf.new 0 0) .len).2]
+  rw [← buffered_refines_queue initial bsize ops]
+  generalize Buf.new initial bsize = b
+  induction ops generalizing b with
+  | nil => rfl
+  | cons op ops ih =>
+    simp only [Buf.runF, Buf.run, (buffered_factmodel_is_model b op).1, ih]
+
 end buffered
 
 end Kit.C14
